@@ -72,7 +72,11 @@ CLAIMED = {
             'apply_all_filters of DAO/IRAF/StarFinder catalogs on symbolic '
             'statistics keeps exactly the finite, inclusive-in-bounds, '
             '<=peakmax sources, N brightest, ids 1..N; _find_stars derives '
-            'footprint and (ny,nx) border from kernel/min_separation.',
+            'footprint and (ny,nx) border from kernel/min_separation; the '
+            'full finder pipelines on a crowded concrete scene return only '
+            'rows inside the configured bounds for 1560 solver-enumerated '
+            'configurations (bounds, peakmax, brightest, exclude_border, '
+            'xycoords).',
             'maximum_filter stub (definition); constant images excluded '
             '(documented None); statistics formulas themselves not covered',
             TECH),
